@@ -218,7 +218,8 @@ func (st *cliStats) count(key string) {
 	st.mu.Unlock()
 }
 
-var diffStamp = regexp.MustCompile(`(?m)^(---|\+\+\+) (.*)\t[0-9]{4}-[0-9]{2}-[0-9]{2} [0-9:.]+ [+-][0-9]{4}$`)
+// diffStamp matches the temp-file mtime that the external diff prints after the file name in ---/+++ headers.
+var diffStamp = regexp.MustCompile(`(?m)\t[0-9]{4}-[0-9]{2}-[0-9]{2} [0-9]{2}:[0-9]{2}:[0-9]{2}\.[0-9]+ [+-][0-9]{4}$`)
 
 type wsJob struct {
 	set     []int
@@ -301,6 +302,10 @@ func runWorkspace(ctx context.Context, r *evid.Run, st *cliStats, scratch string
 	for _, cmd := range commands {
 		want := expect(job.set, cmd)
 		fmts := formats
+		if r.Quick() && (cmd == "format" || cmd == "format-d") {
+			// --error-format has no influence on buf format; quick runs two of the five values
+			fmts = formats[:2]
+		}
 		if cmd == "lint" {
 			fmts = append(append([]string(nil), formats...), "config-ignore-yaml")
 		}
@@ -503,9 +508,12 @@ func checkFormatCommand(r *evid.Run, st *cliStats, cmd string, job wsJob, dir st
 	}
 	first := results[formats[0]]
 	for _, format := range formats {
-		res := results[format]
-		masked := diffStamp.ReplaceAllString(res.Stdout, "$1 $2")
-		if res.ExitCode != first.ExitCode || masked != diffStamp.ReplaceAllString(first.Stdout, "$1 $2") {
+		res, ok := results[format]
+		if !ok {
+			continue
+		}
+		masked := diffStamp.ReplaceAllString(res.Stdout, "")
+		if res.ExitCode != first.ExitCode || masked != diffStamp.ReplaceAllString(first.Stdout, "") {
 			r.Violate("cli/format-depends-on-error-format/"+cmd, fmt.Sprintf("buf format result differs between --error-format %s and %s", format, formats[0]), mk(format, ""))
 			continue
 		}
@@ -589,6 +597,9 @@ func cliPlanted(ctx context.Context, r *evid.Run, st *cliStats, scratch string) 
 		}
 	}
 	hostileSets := [][]int{pick("L1", "L2"), pick("K1", "K3"), pick("C1"), pick("M1", "U1")}
+	if r.Quick() {
+		hostileSets = hostileSets[:2]
+	}
 	for _, d := range dirNames[1:] {
 		for _, s := range hostileSets {
 			jobs = append(jobs, wsJob{s, d})
